@@ -22,7 +22,15 @@ import (
 	"golang.org/x/tools/go/ssa"
 )
 
-const repoDir = "/repo"
+// repoDir: the tree under verification. Always /repo for the registered checks; the developer
+// tool bin/seedrun2 points it at a scratch worktree (GOCV_REPO) to try a seeded change without
+// touching /repo.
+var repoDir = func() string {
+	if d := os.Getenv("GOCV_REPO"); d != "" {
+		return d
+	}
+	return "/repo"
+}()
 const modPath = "github.com/go-swagger/go-swagger"
 
 // Clause is one requires/ensures/invariant clause.
